@@ -233,7 +233,11 @@ def run(ctx):
                  "machine-level output takes precedence over the final state's output" if ok else
                  "the output handed to _complete() is not chosen by 'machine_output is not None': output precedence is wrong", x)
         for call in comps:
-            top = any("parent is self.machine" in norm(a) or "parent is None" in norm(a) for a, pl in guards_at(dc, call) if pl)
+            from sa.inline import _push_not
+            def _pos(a, pl):
+                """the guard as a positive statement (negations pushed inward)"""
+                return norm(_push_not(a if pl else ast.UnaryOp(op=ast.Not(), operand=a)))
+            top = any(("parent is self.machine" in t_ or "parent is None" in t_) for t_ in (_pos(a, pl) for a, pl in guards_at(dc, call)))
             c.ob("R5", top, dc, "complete-only-top-level", "only a final child of the root completes the machine" if top else
                  "_complete() is reachable for a final state that is not a child of the root", call)
         sends = [s for s in res.callsites(dc, v) if s.callee_text in ("self.send", "self._deliver")]
